@@ -817,7 +817,8 @@ fn generate(seed: u64, idx: u64, rng: &mut Rng) -> ConcCase {
             for _ in 0..rng.range(1, 2) {
                 let mut ops = vec![];
                 for _ in 0..rng.range(1, 2) {
-                    ops.push(match rng.below(14) {
+                    ops.push(match rng.below(16) {
+                        14 | 15 => Op::Owner { p: "/p".into() },
                         10 | 11 => Op::Paths { p: "/p".into() },
                         12 => Op::AllPaths { p: "/p".into() },
                         13 => Op::Dirs { p: "/p".into() },
@@ -834,7 +835,13 @@ fn generate(seed: u64, idx: u64, rng: &mut Rng) -> ConcCase {
                 threads.push(ops);
             }
             let mut ops = vec![];
-            match rng.below(5) {
+            match rng.below(6) {
+                5 => {
+                    // (chown is one call under one guard in the pinned code: an owner() that sees
+                    // half of it has no sequential explanation)
+                    ops.push(Op::Chown { p: "/p".into(), uid: 5, gid: 5 });
+                    ops.push(Op::Chown { p: "/p".into(), uid: 6, gid: 6 });
+                },
                 0 => ops.push(Op::MoveP { s: "/g".into(), d: "/p".into() }),
                 1 => {
                     ops.push(Op::Remove { p: "/p".into() });
